@@ -327,7 +327,7 @@ def parseWithLexer {R : Type} (env : Env R) (buf : Buf) (fuel pos flags : Nat) :
   parseCtx env buf fuel pos none flags maxDepth
 
 /-- fuel that always suffices (`Props`: every recursive call consumes a byte or a unit of depth) -/
-def defaultFuel (buf : Buf) : Nat := 2 * buf.size + 64
+def defaultFuel (buf : Buf) : Nat := 3 * buf.size + 64
 
 /-- `parse(data, r, flags)` -/
 def parse {R : Type} (env : Env R) (buf : Buf) (flags : Nat) : Out (Prim R × Nat) :=
